@@ -44,13 +44,13 @@ POOL = ["Au", "Cu", "Zn", "Pb", "Ag", "Fe"]
 OBJECT_LABELS = ("Surveys", "Trace", "Property Group IDs", "TraceDepth")
 PROFILES = ["mixed", "readd", "rename", "tables", "zero", "reopen", "mixed", "removal"]
 WEIGHTS = {
-    "mixed": dict(rename_clash=0.7, add_hole=2, new_table=4, add_to_table=4, update=4, rename=1, rm_data=3, rm_pg=1, rm_hole=2, reopen=3, copy_hole=1, table_push=1, copy_group=0.5),
-    "readd": dict(add_hole=1, new_table=5, add_to_table=3, update=2, rename=0, rm_data=5, rm_pg=3, rm_hole=2, reopen=3, copy_hole=0, table_push=0, copy_group=0),
-    "rename": dict(rename_clash=2, add_hole=1, new_table=3, add_to_table=3, update=2, rename=5, rm_data=1, rm_pg=0, rm_hole=0, reopen=3, copy_hole=0, table_push=0, copy_group=0),
-    "tables": dict(add_hole=2, new_table=3, add_to_table=2, update=2, rename=0, rm_data=1, rm_pg=1, rm_hole=1, reopen=2, copy_hole=0, table_push=5, copy_group=0),
-    "zero": dict(add_hole=2, new_table=5, add_to_table=3, update=2, rename=0, rm_data=4, rm_pg=2, rm_hole=1, reopen=3, copy_hole=1, table_push=0, copy_group=0),
-    "reopen": dict(rename_clash=0.7, add_hole=1, new_table=3, add_to_table=3, update=4, rename=0, rm_data=3, rm_pg=1, rm_hole=2, reopen=8, copy_hole=1, table_push=1, copy_group=1),
-    "removal": dict(add_hole=1, new_table=2, add_to_table=2, update=1, rename=0, rm_data=5, rm_pg=3, rm_hole=4, reopen=4, copy_hole=1, table_push=0, copy_group=1),
+    "mixed": dict(retype=0.6, rename_clash=0.7, add_hole=2, new_table=4, add_to_table=4, update=4, rename=1, rm_data=3, rm_pg=1, rm_hole=2, reopen=3, copy_hole=1, table_push=1, copy_group=0.5),
+    "readd": dict(retype=0.6, add_hole=1, new_table=5, add_to_table=3, update=2, rename=0, rm_data=5, rm_pg=3, rm_hole=2, reopen=3, copy_hole=0, table_push=0, copy_group=0),
+    "rename": dict(retype=0.6, rename_clash=2, add_hole=1, new_table=3, add_to_table=3, update=2, rename=5, rm_data=1, rm_pg=0, rm_hole=0, reopen=3, copy_hole=0, table_push=0, copy_group=0),
+    "tables": dict(retype=0.6, add_hole=2, new_table=3, add_to_table=2, update=2, rename=0, rm_data=1, rm_pg=1, rm_hole=1, reopen=2, copy_hole=0, table_push=5, copy_group=0),
+    "zero": dict(retype=0.6, add_hole=2, new_table=5, add_to_table=3, update=2, rename=0, rm_data=4, rm_pg=2, rm_hole=1, reopen=3, copy_hole=1, table_push=0, copy_group=0),
+    "reopen": dict(retype=0.6, rename_clash=0.7, add_hole=1, new_table=3, add_to_table=3, update=4, rename=0, rm_data=3, rm_pg=1, rm_hole=2, reopen=8, copy_hole=1, table_push=1, copy_group=1),
+    "removal": dict(retype=0.6, add_hole=1, new_table=2, add_to_table=2, update=1, rename=0, rm_data=5, rm_pg=3, rm_hole=4, reopen=4, copy_hole=1, table_push=0, copy_group=1),
 }
 
 
@@ -517,6 +517,26 @@ class Driver:
                 self.ws.save_entity(h)
                 rec.see("explicit-saves-of-stored-holes")
             return True
+        if kind == "retype":
+            # a new data type for a stored data set whose values this session has not read: the values stay what they were
+            floats = [(pg, nm) for pg, nm in props if kind_of_values(hm["tables"][pg]["props"][nm]) == "float"]
+            if not floats:
+                return False
+            pg, nm = rng.choice(floats)
+            d = self.data(u, nm)
+            from geoh5py.data import DataType
+
+            try:
+                d.entity_type = DataType(self.ws, primitive_type=d.entity_type.primitive_type, name=f"type of {nm} v{self.accepted}")
+            except Exception as exc:  # noqa: BLE001
+                self.refuse(kind, exc)
+                return False
+            rec.see("types-swapped-on-stored-data")
+            rec.see("op:retype")
+            # the history ends here (values are judged now and from the closed file): what a re-typed concatenated data set does
+            # to later operations is another matter (its new type is not stored: noted in DESIGN.md, not judged by C04)
+            self.judge_values("C04.values-live", "retype")
+            raise StopCase
         if kind == "rename":
             if not props:
                 return False
